@@ -4,7 +4,7 @@ GOMAXPROCS=1, another time zone, restarts at pseudo-random points inside and bet
 interrupted block — must yield identical app hashes per height and identical per-transaction
 (code, codespace, gas_wanted, gas_used, sha256(data)); every restart must resume at the last committed height/hash.
 """
-import os, glob, subprocess, shutil, json
+import time, os, glob, subprocess, shutil, json
 from concurrent.futures import ThreadPoolExecutor
 
 
@@ -75,6 +75,7 @@ def run(G, rh, tier, seed):
 
             def one(s):
                 ra = _twin(vh, s, s[:-7] + ".twinA", "memdb", {"GOMAXPROCS": "16", "TZ": "UTC"})
+                time.sleep(1.3)  # instance B executes every block at a later wall-clock second than instance A
                 # corpus scripts (witnesses of known findings among them): restart at EVERY eligible point, fixed seed, so that
                 # they reproduce whatever VERIF_SEED is; generated scripts: restarts at ~25 % of the points, seed-derived
                 if os.path.basename(s).startswith("c"):
